@@ -97,6 +97,14 @@ func (m *MatchWinbox) Match(cx *layer4.Connection) (bool, error) {
 	// Parse MessageAuth
 	msg := &MessageAuth{}
 	if err = msg.FromBytes(buf[:n+2]); err != nil {
+		// A full first chunk may be followed by another chunk. If that chunk hasn't been completely prefetched yet
+		// (n < l+1 means everything prefetched so far has been read) and the first chunk isn't a whole message
+		// by itself, ask for more data instead of rejecting.
+		if next := 2 + MessageChunkBytesMax; int(hdr[0]) == MessageChunkBytesMax &&
+			(n+2 < next+2 || n+2 < next+2+int(buf[next])) &&
+			(n+2 == next || (&MessageAuth{}).FromBytes(buf[:next]) != nil) {
+			return false, layer4.ErrConsumedAllPrefetchedBytes
+		}
 		return false, nil
 	}
 
